@@ -24,6 +24,10 @@ def run(chk):
     d = X.Decider(seed=chk.seed, k=3 if chk.tier == 'quick' else 10)
     eq = make_eq(chk, d)
 
+    def fact(inst, got, ref, where=None):
+        """a formula the code is observed to implement: recorded as evidence, not demanded (C19 states signs and orderings, not the scaling laws)"""
+        chk.note_analysed('formulas', f'{inst}: {"holds" if d.equal(got, ref) else "does NOT hold (not a clause of C19)"}')
+
     # ------------------------------------------------------------------ R19.1 radiogenics
     mr = repo.by_path('TidalPy/radiogenics/radiogenic_models.py')
     f_iso = need_func(mr, 'isotope'); f_fix = need_func(mr, 'fixed'); f_off = need_func(mr, 'off')
@@ -138,7 +142,7 @@ def run(chk):
     alp = X.atom('thermal_expansion', 'pos'); L = X.atom('layer_thickness', 'pos'); g = X.atom('gravity', 'pos'); rho = X.atom('density', 'pos')
     ca = X.atom('convection_alpha', 'pos'); cb = X.atom('convection_beta', 'pos'); rac = X.atom('critical_rayleigh', 'pos')
     cond = it.call(mc, f_cond, [dT, kth, L])
-    eq('R19.4', 'conduction: flux == k dT / L', cond[0], kth * dT / L, mc.where(f_cond))
+    fact('conduction: flux == k dT / L', cond[0], kth * dT / L, mc.where(f_cond))
     record_sign(chk, 'R19.4', 'conduction: flux > 0 for dT > 0', sign_of(cond[0]), (POS,), mc.where(f_cond))
     record_sign(chk, 'R19.4', 'conduction: d flux / d dT >= 0', sign_of(X.diff(cond[0], 'delta_temp')), (POS, NONNEG), mc.where(f_cond))
     conv = it.call(mc, f_conv, [dT, eta, kth, kap, alp, L, g, rho, ca, cb, rac])
@@ -158,19 +162,89 @@ def run(chk):
             return None
         return fb
     from ..core.regions import masks_in
-    for nu_gt2 in (True, False):
-        hook = ghost_mask({}, conv_policy(nu_gt2))
-        flux, bl, ra, nu = (X.specialize(v_, hook) for v_ in conv)
-        lab = 'Nu > 2 (convecting)' if nu_gt2 else 'Nu <= 2 (floored at 2)'
-        left = [m_ for v_ in (flux, bl, ra, nu) for m_ in masks_in(v_)]
-        chk.ob('R19.2', f'convection region [{lab}]: all masks decided', not left, f'{[X.show(m_)[:60] for m_ in left[:2]]}', wherec, method='region specialisation')
-        eq('R19.4', f'convection [{lab}]: Rayleigh == alpha rho g dT L^3 / (eta kappa)', ra, ra_ref, wherec)
-        nu_ref = ca * X.power(ra_ref / rac, cb) if nu_gt2 else X.const(2)
-        eq('R19.4', f'convection [{lab}]: Nusselt', nu, nu_ref, wherec)
-        eq('R19.4', f'convection [{lab}]: flux == k dT Nu / L  (= Nu x conductive flux across the same layer, Nu >= 2)', flux, kth * dT * nu_ref / L, wherec)
-        record_sign(chk, 'R19.4', f'convection [{lab}]: flux > 0', sign_of(flux), (POS,), wherec)
-        record_sign(chk, 'R19.4', f'convection [{lab}]: d flux / d dT >= 0', sign_of(X.diff(flux, 'delta_temp')), (POS, NONNEG), wherec)
-        record_sign(chk, 'R19.4', f'convection [{lab}]: d flux / d viscosity <= 0', sign_of(X.diff(flux, 'viscosity')), (NEG, NONPOS, ZERO), wherec)
+    # thresholds the kernel compares an input against (today: none besides eps / MIN_THICKNESS / Nu = 2, which the policy covers): every
+    # ordering of the input against its thresholds is a region of its own, so a floor or cap added to an input is analysed, not rejected
+    thresholds = {}
+    for v_ in conv:
+        for m_ in masks_in(v_):
+            a_, b_ = m_.args
+            if conv_policy(True)(m_) is not None:
+                continue
+            if a_.op == 'atom' and b_.op == 'const':
+                thresholds.setdefault(a_.val[0], set()).add(F(b_.val))
+            elif b_.op == 'atom' and a_.op == 'const':
+                thresholds.setdefault(b_.val[0], set()).add(F(a_.val))
+    ghost_sets = [({}, '')]
+    for nm, cs in sorted(thresholds.items()):
+        cs = sorted(cs)
+        pts = [(cs[0] / 2 if cs[0] > 0 else cs[0] - 1, f'{nm} < {cs[0]}')]
+        for i_, c_ in enumerate(cs):
+            pts.append((c_, f'{nm} == {c_}'))
+            nxt = cs[i_ + 1] if i_ + 1 < len(cs) else None
+            pts.append(((c_ + nxt) / 2 if nxt is not None else c_ * 2 + 1, f'{nm} > {c_}' if nxt is None else f'{c_} < {nm} < {nxt}'))
+        ghost_sets = [(dict(g_, **{nm: gv}), (lb + ', ' if lb else '') + l2) for (g_, lb) in ghost_sets for (gv, l2) in pts]
+    if len(ghost_sets) > 64:
+        raise AnalysisError(f'{wherec}: {len(ghost_sets)} threshold regions in convection()')
+    chk.note_analysed('regions', f'convection: {2 * len(ghost_sets)} regions (Nu above / at the floor x {len(ghost_sets)} orderings of inputs against thresholds {dict((k, sorted(map(str, v))) for k, v in thresholds.items())})')
+    cond_flux = cond[0]
+    for g_, glab in ghost_sets:
+        for nu_gt2 in (True, False):
+            hook = ghost_mask(g_, conv_policy(nu_gt2))
+            flux, bl, ra, nu = (X.specialize(v_, hook) for v_ in conv)
+            lab = ('Nu > 2 (convecting)' if nu_gt2 else 'Nu <= 2 (floored at 2)') + (', ' + glab if glab else '')
+            left = [m_ for v_ in (flux, bl, ra, nu) for m_ in masks_in(v_)]
+            if left:
+                chk.undecide('R19.4', f'convection region [{lab}]', f'comparison(s) not decided by the region policy: {[X.show(m_)[:60] for m_ in left[:2]]}')
+                continue
+            # structure facts (evidence only; the property does not fix the scaling law)
+            if not glab:
+                chk.note_analysed('formulas', f'convection [{lab}]: Rayleigh {"==" if d.equal(ra, ra_ref) else "!="} alpha rho g dT L^3 / (eta kappa); Nusselt '
+                                  f'{"==" if d.equal(nu, ca * X.power(ra_ref / rac, cb) if nu_gt2 else X.const(2)) else "!="} {"alpha (Ra/Ra_c)^beta" if nu_gt2 else "2"}')
+            record_sign(chk, 'R19.4', f'convection [{lab}]: flux > 0', sign_of(flux), (POS,), wherec)
+            record_sign(chk, 'R19.4', f'convection [{lab}]: d flux / d dT >= 0', sign_of(X.diff(flux, 'delta_temp')), (POS, NONNEG), wherec)
+            record_sign(chk, 'R19.4', f'convection [{lab}]: d flux / d viscosity <= 0', sign_of(X.diff(flux, 'viscosity')), (NEG, NONPOS, ZERO), wherec)
+            # convection >= conduction across the same layer: flux == Nu x (conductive flux) with the region's own Nusselt number, which is > 2 on the
+            # convecting region (that is what selects the region) and a constant >= 1 on the floored one
+            ok_fac = d.equal(flux, cond_flux * nu)
+            nu_ok = True if nu_gt2 else (nu.op == 'const' and nu.val >= 1)
+            sg = sign_of(flux - cond_flux)
+            chk.ob('R19.4', f'convection [{lab}]: flux >= conductive flux across the same layer', sg in (POS, NONNEG, ZERO) or (ok_fac and nu_ok),
+                   f'flux is not Nu x conduction with Nu >= 1 (Nu here: {X.show(nu)[:50]}) and the sign of (convection - conduction) is {sg}', wherec, method='factorisation + sign domain')
+    # across region boundaries: the flux must not step the wrong way.  Exhibited on the extracted formula at concrete inputs (pairs of
+    # viscosities / contrasts straddling every threshold and far apart); a report names the inputs.
+    import random as _r
+    rng = _r.Random(chk.seed + 190)
+    flux_full = conv[0]
+    names = ['delta_temp', 'viscosity', 'thermal_conductivity', 'thermal_diffusivity', 'thermal_expansion', 'layer_thickness', 'gravity', 'density',
+             'convection_alpha', 'convection_beta', 'critical_rayleigh']
+    nprobe = 300 if chk.tier == 'quick' else 3000
+    worst = {'viscosity': None, 'delta_temp': None}
+
+    def fval(env):
+        e2 = dict(env); e2['float_eps'] = 2.220446049250313e-16
+        return X.float_eval(flux_full, e2).real
+    for _ in range(nprobe):
+        env = {'delta_temp': 10 ** rng.uniform(-1, 3), 'viscosity': 10 ** rng.uniform(-4, 22), 'thermal_conductivity': rng.uniform(0.5, 6), 'thermal_diffusivity': 10 ** rng.uniform(-7, -5),
+               'thermal_expansion': 10 ** rng.uniform(-5.5, -4), 'layer_thickness': 10 ** rng.uniform(2, 6.5), 'gravity': rng.uniform(0.1, 25), 'density': rng.uniform(900, 9000),
+               'convection_alpha': rng.uniform(0.3, 1.5), 'convection_beta': rng.uniform(0.2, 0.4), 'critical_rayleigh': rng.uniform(400, 2500)}
+        for var, direction in (('viscosity', -1), ('delta_temp', +1)):
+            cands = []
+            for c_ in sorted(thresholds.get(var, ())):
+                c_ = float(c_)
+                cands += [(c_ * (1 - 1e-6), c_), (c_, c_ * (1 + 1e-6)), (c_ * rng.uniform(0.01, 0.99), c_ * rng.uniform(1.01, 100))]
+            v0 = env[var]
+            cands.append((v0, v0 * 10 ** rng.uniform(0.01, 3)))
+            for lo, hi in cands:
+                if lo <= 0: continue
+                f_lo = fval(dict(env, **{var: lo})); f_hi = fval(dict(env, **{var: hi}))
+                bad = (f_hi > f_lo * (1 + 1e-9)) if direction < 0 else (f_hi < f_lo * (1 - 1e-9))
+                if bad and worst[var] is None:
+                    worst[var] = (lo, hi, f_lo, f_hi, env)
+    for var, txt in (('viscosity', 'non-increasing in viscosity'), ('delta_temp', 'non-decreasing in the temperature contrast')):
+        w_ = worst[var]
+        chk.ob('R19.4', f'convection: flux {txt} across region boundaries ({nprobe} input sets, pairs straddling each threshold)', w_ is None,
+               '' if w_ is None else f'{var} {w_[0]:.9g} -> {w_[1]:.9g} takes the flux {w_[2]:.6g} -> {w_[3]:.6g} W/m^2 at ' + ', '.join(f'{k}={v:.4g}' for k, v in w_[4].items() if k != var),
+               wherec, method='float evaluation of the extracted formula (witness search)')
     off = it.call(mc, f_coff, [dT, L])
     eq('R19.4', 'cooling off: zero flux', off[0], X.ZERO, mc.where(f_coff))
 
@@ -189,19 +263,21 @@ def run(chk):
         return None
     hookc = ghost_mask({}, clamp_policy)
     va = X.specialize(it.call(mv, f_arr, [T, P, A, False, st, se, gs, ge, E, V]), hookc)
-    eq('R19.4', 'arrhenius (no extra T): == A stress^(1-n) grain^m exp((E + P V)/(R T))', va, A * X.power(st, 1 - se) * X.power(gs, ge) * exp((E + P * V) / (T * Rg)), mv.where(f_arr))
+    fact('arrhenius (no extra T): == A stress^(1-n) grain^m exp((E + P V)/(R T))', va, A * X.power(st, 1 - se) * X.power(gs, ge) * exp((E + P * V) / (T * Rg)), mv.where(f_arr))
     record_sign(chk, 'R19.4', 'arrhenius (no extra T): d viscosity / d T <= 0', sign_of(X.diff(va, 'temperature')), (NEG, NONPOS), mv.where(f_arr))
     vat = X.specialize(it.call(mv, f_arr, [T, P, A, True, st, se, gs, ge, E, V]), hookc)
-    eq('R19.4', 'arrhenius (extra T) == T x arrhenius (no extra T)', vat, T * va, mv.where(f_arr))
+    fact('arrhenius (extra T) == T x arrhenius (no extra T)', vat, T * va, mv.where(f_arr))
     sgt = sign_of(X.diff(vat, 'temperature'))
     if sgt not in (NEG, NONPOS):
         chk.undecide('R19.4', 'arrhenius (extra T): d viscosity / d T <= 0', 'sign domain: derivative is eta (1 - (E+PV)/(RT)), negative only for T < (E+PV)/R (documented as outside the claim)')
     vr = X.specialize(it.call(mv, f_ref, [T, P, eref, Tref, E, V]), hookc)
-    eq('R19.4', 'reference: == eta_ref exp((E + P V)/R (1/T - 1/T_ref))', vr, eref * exp((E + P * V) / Rg * (1 / T - 1 / Tref)), mv.where(f_ref))
-    eq('R19.4', 'reference: value at T_ref == eta_ref', X.subst(vr, {'temperature': Tref}), eref, mv.where(f_ref))
+    fact('reference: == eta_ref exp((E + P V)/R (1/T - 1/T_ref))', vr, eref * exp((E + P * V) / Rg * (1 / T - 1 / Tref)), mv.where(f_ref))
+    fact('reference: value at T_ref == eta_ref', X.subst(vr, {'temperature': Tref}), eref, mv.where(f_ref))
     record_sign(chk, 'R19.4', 'reference: d viscosity / d T <= 0', sign_of(X.diff(vr, 'temperature')), (NEG, NONPOS), mv.where(f_ref))
-    eq('R19.4', 'constant: == reference viscosity', it.call(mv, f_con, [T, P, eref]), eref, mv.where(f_con))
-    chk.floor('R19.1', 14); chk.floor('R19.2', 40); chk.floor('R19.3', 14); chk.floor('R19.4', 20)
+    vcn = it.call(mv, f_con, [T, P, eref])
+    fact('constant: == reference viscosity', vcn, eref, mv.where(f_con))
+    record_sign(chk, 'R19.4', 'constant: d viscosity / d T <= 0', sign_of(X.diff(vcn, 'temperature')), (NEG, NONPOS, ZERO), mv.where(f_con))
+    chk.floor('R19.1', 14); chk.floor('R19.2', 40); chk.floor('R19.3', 14); chk.floor('R19.4', 18)
     chk.assume('all material parameters, temperatures, thicknesses > 0; temperature contrast > float eps; layer thicker than MIN_THICKNESS; |Arrhenius exponent| < ln(float max)')
 
 
